@@ -63,9 +63,16 @@ pub fn run(out: &mut Out, thorough: bool, seed: u64, _extra: &[String]) {
         // the first rounds are directed: every scheme with two and with three data levels below the special prime
         let kq = if rep < 3 { 3 } else if rep < 6 { 4 } else { r.range(2, 4) as usize };
         let bits: Vec<usize> = (0..kq).map(|_| *r.pick(&[40usize, 50, 59])).collect();
-        let qs = match pick_primes(&mut r, n, &bits) { Some(v) => v, None => continue };
+        let mut qs = match pick_primes(&mut r, n, &bits) { Some(v) => v, None => continue };
         let scheme = [SchemeType::BFV, SchemeType::BGV, SchemeType::CKKS][rep % 3];
         let t = if scheme == SchemeType::CKKS { 0 } else { pick_plain(&mut r, n, 0, &qs) };
+        // BGV (and every second BFV round): the special prime — in the later round also a data prime — is 1 modulo the plain modulus (the shape
+        // `create_with_plain_modulus` produces): q_k^-1 mod t = 1, so the guarded shortcuts of the final division by the special prime are taken
+        if t > 2 && (scheme == SchemeType::BGV || rep % 6 == 3) {
+            let last = qs.len() - 1;
+            if let Some(p) = prime_one_mod(n, t, 55, &qs) { qs[last] = p; }
+            if rep >= 3 { if let Some(p) = prime_one_mod(n, t, 50, &qs) { qs[last - 1] = p; } }
+        }
         let s = match make(scheme, n, &qs, t, true, None) { Some(s) => s, None => continue };
         if !s.ctx.using_keyswitching() { continue; }
         let all_keys = s.keygen.create_galois_keys(false);          // default: 2N-1 and ±2^i steps only (NAF composition needed)
